@@ -111,9 +111,24 @@ def _(self, query, cache=None, description=None, store_key=None, store_to=None, 
     ensures(implies(log_count("Cache.store") > 0, log_arg("Cache.store", "state") is result), "the-stored-state-is-the-returned-one")
     ensures(implies(log_count("Context.evaluate_action") > 0 and rec_has(result.metadata, "is_error") and rec_get(result.metadata, "is_error"),
                     log_count("Cache.store") == 0), "errors-are-never-stored")
+    ensures(implies(log_count("Context.evaluate_action") > 0 and admissible(result.metadata), log_count("Cache.store") == 1),
+            "every-admissible-result-is-stored-at-its-own-level")
+    ensures(implies(old(isnone(self.query)) and log_count("Cache.get") > 0 and not isnone(log_result("Cache.get")),
+                    log_count("Context.evaluate_action") == 0 and log_count("Context.evaluate") == 0 and log_count("Cache.store") == 0
+                    and result is unopt(log_result("Cache.get"))), "a-cache-hit-is-returned-as-is-and-runs-nothing")
+    ensures(implies(old(isnone(self.query)) and log_count("Context.evaluate") > 0 and not isnone(cache),
+                    not isnone(log_arg("Context.evaluate", "cache")) and unopt(log_arg("Context.evaluate", "cache")) is unopt(cache)),
+            "the-prefix-is-evaluated-with-the-same-cache")
+    ensures(implies(old(isnone(self.query)) and log_count("Context.evaluate") > 0
+                    and rec_has(log_result("Context.evaluate").metadata, "is_error") and rec_get(log_result("Context.evaluate").metadata, "is_error"),
+                    log_count("Context.evaluate_action") == 0 and rec_has(result.metadata, "is_error") and rec_get(result.metadata, "is_error")),
+            "a-failed-prefix-short-circuits:no-action-runs-and-the-result-is-an-error")
     ensures(implies(log_count("Context.evaluate_action") > 0 and rec_has(result.metadata, "is_error") and not rec_get(result.metadata, "is_error")
                     and not admissible(result.metadata) and log_count("Cache.store") == 0,
                     log_count("Cache.remove") > 0), "a-result-that-is-not-admitted-evicts-the-stale-entry")
 
 
 prop("C05", fucs=["liquer.context.Context.evaluate"])
+prop("C04", fucs=["liquer.context.Context.evaluate"])
+prop("C09", fucs=["liquer.context.Context.evaluate"])
+prop("C06", fucs=["liquer.context.Context.evaluate"])
